@@ -2532,6 +2532,14 @@ static int32 encryptFlight(ssl_t *ssl, unsigned char **end)
 # endif
         c = msg->start + msg->len;
 
+#ifdef MATRIXSSL_VERIF
+        /* Flight messages are hashed into the transcript here, not when they
+           are written: tell the simulated misbehaving peer which one is next
+           (0x1000 marks this notification; the return value is not used) */
+        (void) psVerifHsSkip(ssl, 0x1000 |
+                (msg->type == SSL_RECORD_TYPE_CHANGE_CIPHER_SPEC ?
+                254 : (msg->hsMsg & 0xff)));
+#endif
         rc = processFinished(ssl, msg);
         if (rc < 0)
         {
